@@ -244,6 +244,8 @@ def native_scope(repo, tier):
                 w = f.get("witness") or {}
                 if f.get("property") == "C17" and w.get("markup_builder"):
                     known.append(dict(w["markup_builder"], only=w.get("only")))      # replayed on its own by the known_findings hook
+                    for fam in w.get("families") or []:
+                        known.append({"fn": fam, "index": 0, "only": w.get("only")})
     except Exception:  # noqa
         pass
     req = {"property": "C17", "obligation": oid, "repo": repo, "known_docs": known}
